@@ -471,9 +471,10 @@ class MultiStream(Stream):
             self._imol = imol = self._imol.to_material_indexer(phases)
             streams = self._streams
             for phase in tuple(streams):
-                if phase in imol._phase_indexer:
-                    streams[phase]._imol = imol.get_phase(phase)
-                else:
+                stream = streams[phase]
+                if phase in imol._phase_indexer and stream.__class__ is Stream:
+                    stream._imol = imol.get_phase(phase)
+                else: # No row for the phase, or the sub-stream was itself made multi-phase (detached)
                     del streams[phase]
             self.reset_cache()
     
